@@ -540,7 +540,7 @@ DEFAULT_ASSUMPTIONS = [
     "sampling, not enumeration: a clean batch is evidence, not proof",
     "the library reaches the file system only through lstat/stat/fopen/fclose/getline/getdelim/scandir/realpath (faults attach there; any other libc path still works on the real tmpfs tree but cannot be faulted)",
     "allocation failure is not injected (no property covers it)",
-    "locale limited to C / C.utf8 (no other locale is installed)",
+    "locale limited to C, C.utf8 and a private locale xx_XX whose decimal point is a comma (sim/locale; no other locale is installed)",
 ]
 
 
